@@ -133,7 +133,15 @@ def runOne {σ : Type} (spec : Bool) (brs : List (Branch σ V)) (kc : List (Kind
     ("precv", ofList (fun b => ofList vJson (received (proj b.id tr))) brs),
     ("pempty", if flow.isEmpty then ofList (fun b => ofList evJson (invocationOf b :: outs b.id (resultOf b))) brs
                else Json.null),
-    ("finaliser", ofList (fun b => evJson (finaliser b)) brs)])
+    ("finaliser", ofList (fun b => evJson (finaliser b)) brs),
+    -- block by block: `blockForm b bl k` for every block, `finalForm b bl` (compared with a Python reference), and
+    -- whether they give the same JSON as `contribution b bl k` / `finalContribution b bl`
+    ("pblocks", ofList (fun b => ofList (fun k => ofList evJson (blockForm b bl k)) (List.range bl.length)) brs),
+    ("pfinal", ofList (fun b => ofList evJson (finalForm b bl)) brs),
+    ("block_agree", Json.bool (brs.all (fun b =>
+      (List.range bl.length).all (fun k =>
+        sameJson (ofList evJson (blockForm b bl k)) (ofList evJson (contribution b bl k))) &&
+      sameJson (ofList evJson (finalForm b bl)) (ofList evJson (finalContribution b bl)))))])
 
 /-! ### op "runx": exceptions, the objects after the run, consecutive runs, nested Splits run per block -/
 
@@ -280,6 +288,8 @@ def handleZipCtx (j : Json) : Json :=
       Json.mkObj [("r", ofList (fun (v : ZVal V Int) =>
           Json.mkObj [("data", ofList vJson v.data), ("bare", Json.bool v.bare),
             ("common", ofCVal (.dict v.z.common)),
+            -- `ZVal.recover j`: the context of the j-th sequence's result, recovered from the yielded value
+            ("recovered", ofList (fun j => ofCVal (.dict (v.recover j))) (List.range results.length)),
             ("zip", ofOpt (ofList (fun d => ofCVal (.dict d))) v.z.zip)]) r.1),
         ("raised", Json.bool r.2)]
   | _, _, _, _, _ => err "bad zipctx args"
